@@ -30,6 +30,17 @@ TRUSTED = [
     " and validated on the real lexer/parsers by the cases",
     "end-to-end search (tests/setup single-mode ingestor + store, both parsers) is a per-run sample with a negative"
     " control: a test, not a proof",
+    "hand-written model props/C11/coq/ModelWire.v of the WIRING: the three flags of cmd/seq-db (--max-token-size,"
+    " --case-sensitive, --partial-indexing), startProxy()'s bulk.IngestorConfig literal, main()'s conf.CaseSensitive,"
+    " NewIngestor's tokenizer map with the three constructors as curried functions in the Go argument order, the"
+    " struct fields each Tokenize reads, indexer.index / decodeInternal looking the tokenizer up in the map (tied to"
+    " /repo by the classes wire-* which build the indexer ONLY through bulk.NewIngestor + Ingestor.ProcessDocuments"
+    " with a recording storage client and read the tokens back from the compressed meta block)",
+    "cmd/seq-db is package main and cannot be called: harness/cmd/hC11/wire.go binaryWiring() is a transcription of"
+    " main()/startProxy() (mirrored by ModelWire.start_proxy_bulk / main_conf_case_sensitive); it is checked, as a"
+    " per-run sample (a test, not a proof), by class bin-e2e: the driver builds ./cmd/seq-db from the tree under test,"
+    " starts it in single mode for every combination of --case-sensitive x --partial-indexing and queries it over"
+    " HTTP; when no toolchain / port is available that class is skipped and counted under binary:* in the statistics",
 ]
 ASSUME = [
     "case-sensitive mode: the keyword/path value (or its partial-indexing cut prefix) is valid UTF-8"
@@ -40,6 +51,9 @@ ASSUME = [
     " that every title's tokens equal the real tokenizer's tokens on a fresh copy of the original value",
     "query text theorems: the value (word, path) is valid UTF-8 and free of U+E000; the field name is written bare"
     " ([A-Za-z0-9_.]+, not `not`); tokens that alias the shared value buffer are observed after all titles ran",
+    "wiring: one process (--mode single) or processes started with the SAME --case-sensitive value: in a proxy/store"
+    " split the tokens are made in the proxy process and the query is parsed in the store process, each from its own"
+    " flag; likewise both read the same mapping file. Mapping reloads and flag parsing (kingpin) are not modelled",
     "the matcher is read at specification level (literal = equality, wildcard = ordered substrings); pattern.go"
     " itself is property C13",
 ]
@@ -62,7 +76,14 @@ RULE = ("random values over ASCII word/separator/quote characters, letters and n
         " real tokenizer emitted; (lex) the real lexer's complete token stream on rendered and free texts; (qtext) mostly"
         " well-formed and malformed query texts (bad escapes, unterminated quotes, comments, stray delimiters, invalid UTF-8)"
         " through both real parsers; (multitype) the real bulk processor on {k: v} with 2-4 titles in permuted order, small"
-        " size limits, values with length-preserving and length-changing upper-case runes and invalid bytes. non-trivial = value has a non-ASCII byte, an upper-case letter, a"
+        " size limits, values with length-preserving and length-changing upper-case runes and invalid bytes; (wire) for every"
+        " combination of case-sensitive x partial-indexing x small (2..14) / large (64..100) MaxTokenSize, equally often: the"
+        " document {f: v} (keyword / text / path, per-field size 0 or 1..40; upper-case letters and values / words beyond the"
+        " limit in every combination, counted per combination) through bulk.NewIngestor(configuration as startProxy fills it)"
+        " + ProcessDocuments + recording client, all tokens of the stored meta compared with the wiring model, the property's"
+        " queries parsed by ParseSeqQL / ParseQuery under conf.CaseSensitive as main() sets it, `_exists_:f`; spec read off the"
+        " flags alone; (wire-doc) generated nested documents with random mappings through the same path; (bin-e2e) the built"
+        " seq-db binary, 4 starts, ~100 queries each over HTTP. non-trivial = value has a non-ASCII byte, an upper-case letter, a"
         " quote/backslash/'*'/'_'/'/' or is cut by a size limit, is not skipped and yields at least one query /"
         " document with a container field and more than 3 tokens; distinct by input")
 
